@@ -513,21 +513,25 @@ func Gen(prop, tier string, seed, run uint64) Plan {
 	}
 	if prop == "C12" || prop == "C20" {
 		// settings and endpoints bookkeeping
-		for i := 0; i < 1+r.IntN(4); i++ {
+		// inserted at seeded positions (the order of the tag operations is kept:
+		// scripts such as reference chains depend on it)
+		for i, m := 0, 1+r.IntN(4); i < m; i++ {
+			var o Op
 			switch r.IntN(5) {
 			case 0:
-				mutOps = append(mutOps, Op{C: CMut, K: "SetConfig", On: r.IntN(2) == 0})
+				o = Op{C: CMut, K: "SetConfig", On: r.IntN(2) == 0}
 			case 1:
-				mutOps = append(mutOps, Op{C: CMut, K: "AddWebhook", Addr: fmt.Sprintf("http://127.0.0.1:1/hook%d", r.IntN(3))})
+				o = Op{C: CMut, K: "AddWebhook", Addr: fmt.Sprintf("http://127.0.0.1:1/hook%d", r.IntN(3))}
 			case 2:
-				mutOps = append(mutOps, Op{C: CMut, K: "DelWebhook", Addr: fmt.Sprintf("http://127.0.0.1:1/hook%d", r.IntN(3))})
+				o = Op{C: CMut, K: "DelWebhook", Addr: fmt.Sprintf("http://127.0.0.1:1/hook%d", r.IntN(3))}
 			case 3:
-				mutOps = append(mutOps, Op{C: CMut, K: "AddEndpoint", Addr: fmt.Sprintf("127.0.0.1:%d", 1+r.IntN(3))})
+				o = Op{C: CMut, K: "AddEndpoint", Addr: fmt.Sprintf("127.0.0.1:%d", 1+r.IntN(3))}
 			case 4:
-				mutOps = append(mutOps, Op{C: CMut, K: "DelEndpoint", Addr: fmt.Sprintf("127.0.0.1:%d", 1+r.IntN(3))})
+				o = Op{C: CMut, K: "DelEndpoint", Addr: fmt.Sprintf("127.0.0.1:%d", 1+r.IntN(3))}
 			}
+			at := r.IntN(len(mutOps) + 1)
+			mutOps = append(mutOps[:at], append([]Op{o}, mutOps[at:]...)...)
 		}
-		r.Shuffle(len(mutOps), func(i, j int) { mutOps[i], mutOps[j] = mutOps[j], mutOps[i] })
 	}
 	// viewer
 	var viewOps []Op
